@@ -15,6 +15,7 @@ Ev(k, a, b, v, style, aid, tag) == [k |-> k, a |-> a, b |-> b, v |-> v, style |-
 Ev0(k, a, b) == Ev(k, a, b, <<>>, "", 0, <<>>)
 NoEv == Ev0("None", <<0, 0, 0>>, <<0, 0, 0>>)
 EmptyScalar(a, b) == Ev("Scalar", a, b, <<"~">>, "plain", 0, <<>>)
+MaxNestingLevel == 1000
 DefaultSecondary == <<"t", "a", "g", ":", "y", "a", "m", "l", ".", "o", "r", "g", ",", "2", "0", "0", "2", ":">>
 
 PInit(keep) == [sc |-> ScanInit, state |-> "StreamStart", states |-> <<>>, tok |-> NoneTok, smark |-> <<0, 0, 0>>,
@@ -259,6 +260,7 @@ FSEMappingValueS(t, p0) ==
 Parse(t, p) ==
   LET st == p.state IN
   IF st = "End" THEN Ret(p, Ev0("StreamEnd", Mark(p.sc), Mark(p.sc)))
+  ELSE IF Len(p.states) > MaxNestingLevel THEN Bad(PErr(p, "recursion limit exceeded", Mark(p.sc)))     \* one state per open collection
   ELSE IF st = "StreamStart" THEN StreamStartS(t, p)
   ELSE IF st = "ImplicitDocumentStart" THEN DocumentStartS(t, p, TRUE)
   ELSE IF st = "DocumentStart" THEN DocumentStartS(t, p, FALSE)
